@@ -22,7 +22,13 @@ char* GetErrorMsg(int number) { (void)number; return msg_txt; }
 static int mon_print0(void) { return 0; }
 #define fprintf(...) mon_print0()
 #define printf(...) mon_print0()
-static void verif_exit(int code) { g_exit_code = code; VASSUME(0); }
+static void verif_exit(int code) {
+    g_exit_code = code;
+#ifdef VERIF_EXIT_REACH
+    if (code == 3) VREACH("format error exit");
+#endif
+    VASSUME(0);
+}
 #define exit(c) verif_exit(c)
 
 #define ConstLongInt(a, b, c) verif_ConstLongInt((a), (b), (c))
@@ -108,9 +114,21 @@ void h_ReadRecordHeader(void) {
         VPOST(gf[0].w_off != p0 + 3 || gran == gf[0].w_val, "C07: granularity field is byte 3 of the header");
         VREACH("fields");
     }
+    VPOST(!(IS_LONG_HDR(h) && gf[0].pos == p0 + 4) || gran != 0, "C03: a record header with granularity 0 is a format error, it is never handed to the tool (division by the granularity)");
     VREACH("end");
 }
 
+/* a file that ends inside a record header (or right where one is due) is a format or I/O error: ReadRecordHeader does not
+ * return with a stale header, which made the tools' record loops spin forever */
+void h_ReadRecordHeader_trunc(void) {
+    Byte h, cpu, seg, gran; long p0;
+    mk_common();
+    p0 = gf[0].pos;
+    VND(h, uchar); VND(cpu, uchar); VND(seg, uchar); VND(gran, uchar);
+    VASSUME(p0 == gf[0].len || (p0 + 4 > gf[0].len && gf[0].w_off == p0 && IS_LONG_HDR(gf[0].w_val)));
+    ReadRecordHeader(&h, &cpu, &seg, &gran, msg_txt, GF_FILE(0));
+    VPOST(0, "C03: a code file that ends inside a record header ends the tool with an error status, the header is not returned");
+}
 /* WriteRecordHeader: long form writes the four fields, short form the CPU id only, and a
  * failing write is noticed (ChkIO -> exit 2) */
 void h_WriteRecordHeader(void) {
